@@ -438,6 +438,7 @@ func execPm(ops []Op) []string {
 		defer mu.Unlock()
 		return out
 	case <-hangAfter(pmTimeout):
+		noteHang()
 		return []string{"X timeout " + opsToStrings(ops)[0] + " => no reply within " + pmTimeout.String()}
 	}
 }
